@@ -24,6 +24,7 @@ TOp == /\ Ev.op # "init" /\ objs' = Logged
        /\ Chk("C14.List",  C!C_List(objs[Ev.t], Ev, Logged[Ev.t]))
        /\ Chk("C14.Exc",   C!C_Exc(objs[Ev.t], Ev))
        /\ Chk("C14.Frame", C!C_Frame(objs, Ev, Logged))
+       /\ Chk("C14.SetDataNames", C!C_SetDataNames(Ev, Logged[Ev.t]))
        /\ \A t \in DOMAIN Logged : Views(Logged[t], Ev.views[t])
 
 TNext == HasNext /\ Advance /\ (TStart \/ TOp)
